@@ -11,6 +11,7 @@ type unit struct {
 	bytestr         bool     // a Go string is a list of bytes (list Z): indexing, slicing, strings.HasPrefix/IndexByte/Index from Lib/GoLib.v
 	join            bool     // an `if` that only assigns variables becomes `let vars := if .. in` instead of duplicating the code after it
 	clock           bool     // time.Now() reads, and time.Sleep(d) advances, an explicit clock `now_` that is also passed to the untranslated methods of the receiver
+	foreign         []string // functions of the package that stay Section Variables even though they could be translated
 	drop            []string // statements calling something whose source text starts with one of these are left out (statistics, logging)
 }
 
@@ -27,7 +28,7 @@ var units = []unit{
 		"ReadyTarget.Subscribe", "ReadyTarget.Unsubscribe", "ReadyTarget.Signal", "ReadyTarget.Reset"}},
 	{name: "WalResetWatch", dir: "db", file: "wal_reset_watch.go", funcs: []string{
 		"WALResetWatch.Arm", "WALResetWatch.Disarm", "WALResetWatch.Check"}},
-	{name: "Marshal", dir: "command", file: "marshal.go", funcs: []string{"RequestMarshaler.Marshal"},
+	{name: "Marshal", dir: "command", file: "marshal.go", funcs: []string{"RequestMarshaler.Marshal"}, foreign: []string{"gzCompress"},
 		drop: []string{"stats."},
 		hints: `
 type proto_Request interface{}
@@ -51,7 +52,7 @@ func strings_Contains(s, substr string) bool
 func net_SplitHostPort(hostport string) (host, port string, err error)
 `},
 	{name: "Queue", dir: "queue", file: "queue.go", funcs: []string{"mergeQueued"}},
-	{name: "Uploader", dir: "auto/backup", file: "uploader.go", funcs: []string{"Uploader.upload"},
+	{name: "Uploader", dir: "auto/backup", file: "uploader.go", funcs: []string{"Uploader.upload"}, foreign: []string{"tempFD"},
 		actions: []string{"dataProvider", "storageClient"},
 		drop:    []string{"stats.", "u.logger."},
 		hints: `
@@ -71,7 +72,7 @@ type raft_SnapshotMeta struct {
 	Term  uint64
 }
 `},
-	{name: "CasRetry", dir: "internal/rsync", file: "cas.go", funcs: []string{"CheckAndSet.BeginWithRetry"}, clock: true,
+	{name: "CasRetry", dir: "internal/rsync", file: "cas.go", funcs: []string{"CheckAndSet.BeginWithRetry"}, clock: true, foreign: []string{"CheckAndSet.Begin"},
 		hints: `
 func errors_Is(err, target error) bool
 `},
